@@ -912,7 +912,12 @@ class DynamicVector : public DynamicVectorBaseTypeDispatcher<T, Alloc, SizeType,
       ElemStorage<T> e;
       amc::construct_at(e.ptr(), std::forward<Args &&>(args)...);
       SizeType idx = static_cast<SizeType>(position - this->begin());
-      this->grow(this->size() + 1U);
+      try {
+        this->grow(this->size() + 1U);
+      } catch (...) {
+        amc::destroy_at(e.ptr());
+        throw;
+      }
       pos = this->begin() + idx;
       if (nElemsToShift == 0) {
         amc::relocate_at(e.ptr(), pos);
@@ -940,7 +945,12 @@ class DynamicVector : public DynamicVectorBaseTypeDispatcher<T, Alloc, SizeType,
       // construct before possible iterator invalidation from grow in constructor arguments
       ElemStorage<T> e;
       amc::construct_at(e.ptr(), std::forward<Args &&>(args)...);
-      this->grow(this->size() + 1U);
+      try {
+        this->grow(this->size() + 1U);
+      } catch (...) {
+        amc::destroy_at(e.ptr());
+        throw;
+      }
       endIt = this->dynStorage() + this->size();
       amc::relocate_at(e.ptr(), endIt);
     } else {
